@@ -271,6 +271,16 @@ def body(ck, F, cfg):
         why = []
         ck.require(r7.vec is not None and vec_eq(r7.vec, H.pt_vec(fam, nn), why), "R12.4", f"share:{fam}", f"share.{fam}(n) must be the first n generators of the share's own party vector; {'; '.join(why)}", FX.short(F.fn(path)["sp"]))
     aggregated_views(ck, F)
+    # local Iterator impls define only `next` (+ size_hint): every adaptor (skip, nth, step_by, take, zip, ..) then derives from
+    # the analysed `next`; an overridden provided method would need its own agreement proof with `next`
+    n_it = 0
+    for imp in F.items["impls"]:
+        if (imp["trait"] or "").endswith("iter::Iterator") and imp["expn"] is None:
+            n_it += 1
+            names = sorted(x.split("::")[-1] for x in imp["items"])
+            extra = [x for x in names if x not in ("next", "size_hint", "Item")]
+            ck.require(not extra, "R12.5", f"iterator-impl:{imp['self_ty'].split('<')[0].split('::')[-1]}", f"Iterator impl for {imp['self_ty']} overrides provided methods {extra}: skip/nth/step_by no longer derive from the analysed `next` (kind=unanalysable: no agreement proof)", kind_hint="unanalysable")
+    ck.floor("local Iterator impls", n_it, 3)
     ck.floor("chain uses", len(calls), 2)
     ck.floor("C12 obligations", len(ck.obligations), 14)
 
